@@ -342,7 +342,7 @@ def m_str_trim(c, s):
     return Ptr(Cell(SeqView(base, lo, hi - lo), 'trim'), ())
 
 
-@model(r'^(?:\w+::)*str::<impl str>::parse::<(\w+)>$|^<(\w+) as (?:std::str::)?FromStr>::from_str$')
+@model(r'^(?:\w+::)*str::<impl str>::parse::<([iu]\w+)>$|^<([iu]\w+) as (?:std::str::)?FromStr>::from_str$')
 def m_str_parse(c, s):
     """Exact model of integer FromStr: optional sign, >=1 ASCII digits, overflow -> Err."""
     ip = c.ip
@@ -1068,3 +1068,27 @@ def m_slice_sort(c, p):
     for i, v in enumerate(out):
         base.items[off + i] = v
     return unit()
+
+
+@model(r'^(?:\w+::)*slice::<impl \[.*\]>::(split|splitn)::<\{closure')
+def m_slice_split_pred(c, s, *a):
+    """slice::split(pred): subslices separated by elements matching the predicate closure."""
+    ip = c.ip
+    pred = a[-1]
+    base = seq(ip, s)
+    n = len(base.items)
+    parts = []
+    start = 0
+    for i in range(n):
+        elt = Ptr(Cell(base.base if isinstance(base, SeqView) else base, 'elt'),
+                  (('i', BV(64, (base.start if isinstance(base, SeqView) else 0) + i)),))
+        if ip.branch(ip.call_value(pred, [elt]), 'split_pred'):
+            parts.append((start, i))
+            start = i + 1
+    parts.append((start, n))
+    return IterV([Ptr(Cell(SeqView(base, a0, b0 - a0), 'split'), ()) for a0, b0 in parts])
+
+
+@model(r'^<(?:std::string::)?String as (?:std::str::)?FromStr>::from_str$|^(?:\w+::)*str::<impl str>::parse::<(?:std::string::)?String>$')
+def m_string_from_str(c, s):
+    return ok(c.ip, Seq(list(items(c.ip, s)), 'string'))
